@@ -108,10 +108,11 @@ PROPS["C20"] = {
 PROPS["C12"] = {
     "props": ["OsmVerif.Props.C12"],
     "gens": ["Update"],
-    "required_theorems": [],
+    "required_theorems": ["index_keys", "incomparable_keys_equal", "less_iff_lex", "sortByIndex_sorted", "sortByIndex_perm",
+                          "collect_success_perm", "compute_order_independent", "updates_sorted_index_time_version", "updates_tie_counterexample"],
     "technique": "Lean 4 theorems (uniqueness of the key-sorted permutation; order independence of the per-child fold) about a hand-written executable model of core.Compute with the sort keys regenerated from update.go; tied by a differential line protocol and by repeating the real computation on deep copies",
-    "level_text": "TODO",
-    "level_note": "TODO",
+    "level_text": "Machine-checked proof, for every set of parents, histories and options and every pair of iteration orders of the child map, that the model of core.Compute either fails under both orders or succeeds under both, and then yields identical update lists (given that no two distinct updates of a parent share index, time and version - checked on every generated case) and identical child slots; that the sort keys extracted from update.go are index, timestamp, version, that updates incomparable under them agree on all three, that the sorted permutation is therefore unique, and that every update list is ordered by index, then time, then version. The model is hand-written, the keys are regenerated; every run executes model and real annotate.Ways/Relations on the same generated timelines and repeats the real computation 20 (100) times on fresh copies.",
+    "level_note": "Trusted: Lean kernel; correspondence harness; Go's sort.Sort modelled as 'some permutation sorted w.r.t. Less' (the unique one once ties are impossible); Go map iteration modelled as an arbitrary permutation of the key set. KeysInjective (no two distinct updates with equal index, time, version) is a hypothesis of the order-independence theorem, validated per case by the harness.",
     "design_ref": "DESIGN.md §5 C11/C12",
     "trusted_base": ["model Model/Annotate.lean is hand-written; tie = differential stream through annotate.Ways / annotate.Relations", "Go's sort.Sort returns some permutation sorted w.r.t. Less"],
     "assumptions": ["child versions within one history are distinct"],
@@ -119,10 +120,11 @@ PROPS["C12"] = {
 PROPS["C11"] = {
     "props": ["OsmVerif.Props.C11"],
     "gens": ["Update"],
-    "required_theorems": [],
+    "required_theorems": ["child_is_current_at_commit", "nextVersion_covers", "groupEffect_commit", "time_travel",
+                          "deleted_parent_untouched", "no_history_error", "no_visible_child_error", "child_deleted_between_error"],
     "technique": "Lean 4 theorems about a hand-written executable model of the annotation core (FindVisible, nextVersionIndex, Compute) in the commit-time regime; tied by a differential line protocol and a ground-truth time-travel oracle on simulated edit timelines",
-    "level_text": "TODO",
-    "level_note": "TODO",
+    "level_text": "Machine-checked proof in the commit-time regime (every version of parent and child carries a commit time >= CommitInfoStart), for every history, threshold, changeset id and repeated child slots: the child reference gets the version current at the parent's commit (FindVisible = last version committed at or before, if visible); the update range reaches every version committed before the next parent version; and for every t in [commit p_i, commit p_{i+1}) the updates addressed to a slot and stamped <= t are exactly the child versions committed in (commit p_i, t], oldest first, stamped with their commit time - so applying them leaves the version current at t (time travel). Deleted parents get nothing; missing history, no visible child and child-deleted-between are the documented errors unless ignored. PARTIAL: the timestamp regime (pre-2012 data: closest match within the threshold, same-changeset forward grouping) is covered by the differential stream only; composition over all children of a parent rests on C12's permutation/sortedness theorems.",
+    "level_note": "Trusted: Lean kernel; correspondence harness (model vs annotate.Ways/Relations on simulated timelines in both regimes, plus an independent ground-truth time-travel oracle at every event time); time.Time comparisons modelled on unix seconds; histories are version-sorted with VersionIndex = position (datasource.go, modelled by toChildList).",
     "design_ref": "DESIGN.md §5 C11/C12",
     "trusted_base": ["model Model/Annotate.lean is hand-written; tie = differential stream through annotate.Ways / annotate.Relations"],
     "assumptions": ["commit-time regime for the unconditional statements"],
